@@ -12,7 +12,8 @@ Mth(file, verb, route, hidden, deprecated, sec) ==
 
 SecShapes == { <<>>, <<S("s1", <<>>)>>, <<S("s1", <<"r">>), S("s2", <<"w", "x">>)>>, <<S("s2", <<>>), S("s2", <<"r">>)>>, <<S("s2", <<"w">>), S("s1", <<>>)>>,
                <<S("s2", <<"w", "x", "r", "w">>)>>,         \* (a scope listed twice among others: lists are kept as written)
-               <<S("s2", <<"r", "w">>), S("s2", <<"r">>), S("s1", <<"r">>), S("s1", <<>>)>> }   \* one scheme again with fewer / no scopes: distinct alternatives
+               <<S("s2", <<"r", "w">>), S("s2", <<"r">>), S("s1", <<"r">>), S("s1", <<>>)>>,    \* one scheme again with fewer / no scopes: distinct alternatives
+               <<S("s1", <<"r">>), S("s2", <<>>), S("s1", <<"r">>), S("s2", <<"w">>)>> }       \* an alternative written twice among others: kept as written, in order
 SecShapesU == SecShapes \cup { <<S("s9", <<>>)>>, <<S("S1", <<"r">>)>> }       \* s9 is never declared; nor is S1 (names are case-sensitive)
 
 \* ---- C04: one route, every combination of the three security levels, enforce, default, declared/undeclared -------------
@@ -144,7 +145,9 @@ TOrder == Ty("p1", "Order", "struct", "", <<Fld("ID", "string", "id", "required,
                                               Fld("secret", "string", "", ""), Fld("Skip", "string", "-", ""), Fld("Tags", "[]string", "tags", "required"),
                                               Fld("Meta", "map[string]int", "meta", ""), Fld("When", "time.Time", "when", ""), Fld("Raw", "[]byte", "raw", ""),
                                               Fld("Col", "p1.Color", "col", "required"), Fld("Next", "*p1.Order", "next", ""), Fld("Lines", "[]p2.Line", "lines", ""),
-                                              Fld("Price", "float64", "price", "gt=0")>>, <<>>)
+                                              Fld("Price", "float64", "price", "gt=0"),
+                                              \* pointers to collections and collections of pointers: the mapped type keeps every layer but the pointers
+                                              Fld("Marks", "*[]string", "marks", ""), Fld("Subs", "*[]p2.Line", "subs", ""), Fld("Refs", "[]*p2.Line", "refs", "")>>, <<>>)
 TLine  == Ty("p2", "Line", "struct", "", <<Fld("Sku", "string", "sku", "required,min=1,max=10"), Fld("Level", "p2.Level", "level", ""), Fld("Alias", "p2.Code", "alias", "")>>, <<>>)
 TLevel == Ty("p2", "Level", "enum", "int", <<>>, <<Con("Low", "1"), Con("High", "2")>>)
 TCode  == Ty("p2", "Code", "alias", "string", <<>>, <<>>)
@@ -276,7 +279,7 @@ TypesC09 == { <<TItem, TMyErr, TColor, TOrder, TLine, TLevel, TCode, TDup>> }
 RuleList == << "required", "omitempty", "email", "uuid", "ip", "ipv4", "ipv6", "hostname", "date", "datetime", "gt=1", "gte=2", "lt=9", "lte=8", "min=1", "max=7", "len=5",
                "pattern=^a+$", "minItems=1", "maxItems=3", "uniqueItems", "enum=a|b", "oneof=a b", "unknownrule=3", "gte=2,lte=16", "required,min=3,max=40", "gt=0,lt=10,required", "enum=1|2", "oneof=1 2", "enum=a", "oneof=red blue",
                "oneof=required optional", "ne=required", "min=1,oneof=xrequired y",
-               "oneof=0.1 0.25", "enum=0.3|1.5", "dive,oneof=red", "dive,min=2" >>      \* (0.1 and 0.3 have no exact binary32 representation)
+               "oneof=0.1 0.25", "enum=0.3|1.5", "dive,oneof=red", "dive,min=2", "uniqueItems=1", "uniqueItems=t", "uniqueItems=false", "maxItems=0" >>      \* (0.1 and 0.3 have no exact binary32 representation)
 RuleFieldTypes == {"string", "*string", "int", "uint8", "float64", "float32", "bool", "[]string", "[]int", "p1.Color", "[]p1.Color", "map[string]int", "time.Time", "[]byte"}
 RulesFields(ft) == [i \in DOMAIN RuleList |-> Fld("F" \o ToString(i), ft, "f" \o ToString(i), RuleList[i])]
 TRules(ft) == Ty("p1", "Rules", "struct", "", RulesFields(ft), <<>>)
